@@ -270,6 +270,7 @@ class DDLParser(Parser, Dialects):
             for num, symbol in enumerate(delimiters_to_start):
                 if p[0].startswith(symbol) and p[0].endswith(delimiters_to_end[num]):
                     p[0] = p[0][1:-1]
+                    break
 
     def p_id_or_string(self, p):
         """id_or_string : id
